@@ -145,6 +145,23 @@ func (w *World) digBuilder(c *MCont) atree.DigesterBuilder {
 func (w *World) dropHandles(c *MCont) {
 	delete(w.Handles, c.CID)
 	w.Model.eachChild(c, func(ch *MCont) { w.dropHandles(ch) })
+	// A detached-and-kept container's handle still carries a callback into the handle lineage of its
+	// former parent.  When that lineage is abandoned, the detached container's handle is abandoned with
+	// it (it is re-opened by id, without callback): otherwise the stale callback would operate on the
+	// old lineage of the former parent - the two-lineage hazard of DESIGN 3.3.
+	for _, cid := range w.sortedHandleCIDs() {
+		d := w.Model.Conts[cid]
+		if d == nil || !d.Detached || d == c {
+			continue
+		}
+		for _, anc := range d.FormerLineage {
+			if anc == c.CID {
+				d.FormerLineage = nil
+				w.dropHandles(d)
+				break
+			}
+		}
+	}
 }
 
 func unwrapValue(v atree.Value) (atree.Value, int) {
@@ -454,6 +471,10 @@ func (w *World) disposeStorable(s atree.Storable) error {
 func (w *World) detached(old MVal, s atree.Storable, keep bool) *Violation {
 	ch := childOf(old)
 	if ch != nil && keep {
+		ch.FormerLineage = nil
+		for p := ch.Parent; p != nil; p = p.Parent {
+			ch.FormerLineage = append(ch.FormerLineage, p.CID)
+		}
 		ch.Parent = nil
 		ch.Detached = true
 		w.Stats.Inc("child.detached-kept")
